@@ -56,6 +56,7 @@ type Exec struct {
 	SleptFor               map[int]int // step index -> whole seconds actually slept
 	Aborted                bool        // the case was ended without verdict (documented tolerance band)
 	opStart                time.Time
+	dupNext                bool // the next request datagram is delivered twice (Step.Dup)
 	slept                  bool // virtual time advanced inside the current step (slow callback)
 	lastToken              []byte
 	lastTokenAt            time.Time
